@@ -143,12 +143,12 @@ FaultPosts(e, P, Q) ==
              ELSE IF Loc(P, e.k) = "absent"
              THEN LET C == CarrySt(P)
                       done == (K1(Q.M) \ {e.k}) \cap K1(C.O)
-                  IN IF G(P)!F_InsertNew_En(e.k, 0, done, e.fault.victim)
-                     THEN {G(P)!F_InsertNew_Post(e.k, 0, done, e.fault.victim)} ELSE {}
+                  IN {G(P)!F_InsertNew_Post(e.k, 0, done, e.fault.victim, ru) :
+                         ru \in {x \in RuS : G(P)!F_InsertNew_En(e.k, 0, done, e.fault.victim, x)}}
              ELSE IF Loc(P, e.k) = "old"
              THEN LET done == K1(Q.M) \cap K1(P.O) IN
-                  IF G(P)!F_OverwriteOld_En(e.k, 0, done, e.fault.victim)
-                  THEN {G(P)!F_OverwriteOld_Post(e.k, 0, done, e.fault.victim)} ELSE {}
+                  {G(P)!F_OverwriteOld_Post(e.k, 0, done, e.fault.victim, ru) :
+                      ru \in {x \in RuS : G(P)!F_OverwriteOld_En(e.k, 0, done, e.fault.victim, x)}}
              ELSE {}                              \* overwriting in the main table hashes once
       [] e.op \in {"Insert", "SInsert", "Get", "Remove", "RemoveEntry", "SRemove", "STake", "SContains", "SGet",
                    "SReplace", "SGetOrInsert", "SGetOrInsertOwned"} /\ kind = 1 -> {P}   \* Eq runs inside find()
@@ -156,7 +156,8 @@ FaultPosts(e, P, Q) ==
       [] e.op \in {"Reserve", "TryReserve"} /\ kind = 0 ->
              LET done == K1(Q.M) \cap K1(P.O)
                  n == NArg(e, "n")
-             IN IF G(P)!F_Reserve_En(n, done, e.fault.victim) THEN {G(P)!F_Reserve_Post(done, e.fault.victim)} ELSE {}
+             IN {G(P)!F_Reserve_Post(done, e.fault.victim, ru) :
+                    ru \in {x \in 0..Cardinality(done) : G(P)!F_Reserve_En(n, done, e.fault.victim, x)}}
       [] e.op = "Retain" /\ kind = 3 ->
              LET S == Gone(P, Q) IN
              {G(P)!F_Retain_Post(S, nt) : nt \in {x \in 0..Cardinality(K1(P.M) \cap S) : G(P)!EraseSet_En(S, x)}}
